@@ -5,6 +5,7 @@ Channel `sandbox` (C08):
   sandbox probe|probei <cfg> <name>       battery of call shapes for one name
   sandbox sweep  cli <name>,<name>,…      the batteries of many names in one REPL session
   sandbox script <cfg> <mode> <script>    one script
+  sandbox tuples <cfg> <name> <lo>-<hi>   every argument tuple of length lo…hi over a value pool
 with cfg ∈ {bare, std, cli}. The model of a sandboxed configuration is the reference graph of
 Generated/CallGraph.lean, for which Props/C08.lean proves that no outside-world primitive is
 reachable: whatever the script, the model predicts no canary effect. The specification
@@ -24,6 +25,11 @@ def handle (toks : List String) : String :=
   | ["names", c] => if okCfg c then "-\t-" else "bad-op\t-"
   | ["probe", c, n] | ["probei", c, n] =>
     if okCfg c && (parseCodes? n).isSome then "clean\tclean" else "bad-op\t-"
+  | ["tuples", c, n, r] =>
+    let okRange := match r.splitOn "-" with
+      | [a, b] => a.toNat?.isSome && b.toNat?.isSome
+      | _ => false
+    if (c == "bare" || c == "std") && okRange && (parseCodes? n).isSome then "clean\tclean" else "bad-op\t-"
   | ["sweep", "cli", ns] =>
     if (ns.splitOn ",").all (fun n => (parseCodes? n).isSome) then "clean\tclean" else "bad-op\t-"
   | ["script", c, m, s] =>
